@@ -57,6 +57,7 @@ def run(ctx):
     ctx.cov["distinct_nontrivial"] += s["moved"]
     lines = open(tp).read().splitlines()
     ctx.sample({"trace_event": json.loads(lines[1])})
+    ctx.cov["repositioned_through_public_field"] = sum(1 for x in lines if '"e":"set"' in x.replace(" ", ""))
     if ok:
         ctx.cov["traces_validated_against_impl"] += n_chains
     else:
@@ -79,7 +80,7 @@ def run(ctx):
         ctx.selftest("trace: certain acceptance recorded as rejection", not okc)
     ctx.cov["rule"] = ("replay: all 8^4 IEEE-kind/value tables x 7 draw classes x 5 state/float type combinations "
                        "(TLC-enumerated); non-trivial = cases in which the specification moves the chain. "
-                       "trace: random integer-weight targets with asymmetric table proposals; non-trivial = steps that moved")
+                       "trace: random integer-weight targets with asymmetric table proposals, the chain repositioned through its public current_state field about every 6th step; non-trivial = steps that moved")
     ctx.cov["exhaustive"] = True
 
 
